@@ -323,3 +323,115 @@ pub fn install_quiet_panic_hook() {
         std::panic::set_hook(Box::new(|_| {}));
     }
 }
+
+// ---------------------------------------------------------------------------
+// Several transactions on ONE engine (cross-transaction scheduler state)
+// ---------------------------------------------------------------------------
+
+/// One step of an engine history.
+pub enum SeqStep {
+    /// `begin`, enqueue `enqueue` (indices into `programs`), `abort`.
+    Abort { programs: Vec<Program>, enqueue: Vec<usize> },
+    /// `begin`, enqueue, `commit_with_receipt`.
+    Tick { programs: Vec<Program>, enqueue: Vec<usize> },
+}
+
+/// Descent chains recomputed from the instance records of an abstract state.
+pub fn descent_of(st: &AState) -> BTreeMap<WarpId, Vec<AttachmentKey>> {
+    let mut out: BTreeMap<WarpId, Vec<AttachmentKey>> = BTreeMap::new();
+    for w in st.insts.keys() {
+        let mut chain = Vec::new();
+        let mut cur = *w;
+        let mut guard = 0;
+        while let Some(key) = st.insts.get(&cur).and_then(|i| i.parent) {
+            chain.push(key);
+            cur = crate::gen::key_warp(&key);
+            guard += 1;
+            if guard > 64 {
+                break;
+            }
+        }
+        if !chain.is_empty() {
+            chain.reverse();
+            out.insert(*w, chain);
+        }
+    }
+    out
+}
+
+/// Run a history of aborted and committed transactions on one engine. Returns
+/// one result per `Tick` step (in order); stops after the first failed tick.
+/// Programs are installed in the global table only for the duration of their
+/// own step, so a candidate that leaks into a later transaction is observable
+/// (extra receipt entry / different digests) rather than silently re-executed.
+pub fn run_sequence(pre: &WarpState, root: NodeKey, steps: &[SeqStep], cfg: &TickConfig) -> Vec<TickResult> {
+    let mut out = Vec::new();
+    let mut engine = match EngineBuilder::from_state(pre.clone(), root)
+        .scheduler(cfg.kind)
+        .workers(cfg.workers)
+        .policy_id(cfg.policy_id)
+        .build()
+    {
+        Ok(e) => e,
+        Err(e) => return vec![TickResult::Harness(format!("EngineBuilder::build: {e:?}"))],
+    };
+    if let Err(e) = prog::register_slots(&mut engine, &cfg.reg_order) {
+        return vec![TickResult::Harness(e)];
+    }
+    for step in steps {
+        let (programs, enqueue, commit) = match step {
+            SeqStep::Abort { programs, enqueue } => (programs, enqueue, false),
+            SeqStep::Tick { programs, enqueue } => (programs, enqueue, true),
+        };
+        let (cur, _) = AState::extract(engine.state());
+        let descent = descent_of(&cur);
+        prog::install(programs);
+        let tx = engine.begin();
+        let mut harness_err = None;
+        for &i in enqueue {
+            let p = &programs[i];
+            let empty: Vec<AttachmentKey> = Vec::new();
+            let stack = descent.get(&p.warp).unwrap_or(&empty);
+            match engine.apply_in_warp(tx, p.warp, prog::slot_name(p.slot), &p.scope, stack) {
+                Ok(warp_core::ApplyResult::Applied) => {}
+                Ok(warp_core::ApplyResult::NoMatch) => {
+                    if p.matches {
+                        harness_err = Some("apply_in_warp said NoMatch for a matching program".to_owned());
+                    }
+                }
+                Err(e) => harness_err = Some(format!("apply_in_warp: {e:?}")),
+            }
+        }
+        if let Some(e) = harness_err {
+            engine.abort(tx);
+            prog::uninstall(programs);
+            out.push(TickResult::Harness(e));
+            return out;
+        }
+        if !commit {
+            engine.abort(tx);
+            prog::uninstall(programs);
+            continue;
+        }
+        let res = catch_unwind(AssertUnwindSafe(|| engine.commit_with_receipt(tx)));
+        prog::uninstall(programs);
+        match res {
+            Ok(Ok((snapshot, receipt, patch))) => {
+                let post_state = engine.state().clone();
+                let (post, issues) = AState::extract(&post_state);
+                out.push(TickResult::Committed(Box::new(Committed { snapshot, receipt, patch, post_state, post, issues })));
+            }
+            Ok(Err(e)) => {
+                let (after, _) = AState::extract(engine.state());
+                out.push(TickResult::Failed { why: Failure::Error(format!("{e:?}")), state_after: after });
+                return out;
+            }
+            Err(p) => {
+                let (after, _) = AState::extract(engine.state());
+                out.push(TickResult::Failed { why: panic_to_failure(p), state_after: after });
+                return out;
+            }
+        }
+    }
+    out
+}
